@@ -92,6 +92,11 @@ def c12_battery(binary):
     # same-length edit, mtime moves backwards
     hist("same-length in-place rewrite whose mtime moves backwards (restored older version)",
          [lambda r: two(r, t=ns(T0 + 100)), lambda r: edit(r, "b.bin", 2500, b"B", ns(T0 - 5000))])
+    # three states of one file (same inode, same length): v1 at T1, v2 at T2, v3 with the mtime put back to exactly T1
+    # (cp -p / rsync -t / tar restore times): an entry that was not replaced after v2 would be served for v3
+    hist("three versions, the third with the first one's mtime (entries must be replaced, not only added)",
+         [lambda r: two(r, t=ns(T0, 100)), lambda r: edit(r, "b.bin", 2500, b"B", ns(T0 + 50, 300)),
+          lambda r: edit(r, "b.bin", 2500, b"A", ns(T0 + 90, 0)), lambda r: edit(r, "b.bin", 1000, b"C", ns(T0, 100))])
     # same mtime, different length
 
     def grow(root):
@@ -995,7 +1000,7 @@ def c18_battery(binary):
         return _memo[("c18", binary)]
     devs = []
 
-    def scenario(tag, relative, inside, prepopulate):
+    def scenario(tag, relative, inside, prepopulate, dotdot=False):
         d, root = fresh("c18b.")
         env = mkenv(d)
         try:
@@ -1014,6 +1019,13 @@ def c18_battery(binary):
             target_abs = os.path.join(scan, "archive") if inside else os.path.join(work, "out")
             target_arg = "out" if relative else target_abs
             cwd = work if relative else d
+            if dotdot:
+                # DIR = cur/../out where cur is a symlink to a directory elsewhere: the operating system resolves `..` after the link
+                os.makedirs(os.path.join(d, "archive", "2024"))
+                os.symlink(os.path.join(d, "archive", "2024"), os.path.join(work, "cur"))
+                target_abs = os.path.join(d, "archive", "out")
+                target_arg = "cur/../out"
+                cwd = work
             real_scan = os.path.realpath(scan)
             live = os.path.join(d, "live_target_of_link")
             open(live, "wb").write(b"LIVE")
@@ -1055,6 +1067,7 @@ def c18_battery(binary):
     scenario("DIR inside the scanned tree", False, True, False)
     scenario("DIR pre-populated with a file and a symlink at target paths", False, False, True)
     scenario("relative DIR, pre-populated", True, False, True)
+    scenario("relative DIR with `..` after a symlinked component", True, False, False, dotdot=True)
     _memo[("c18", binary)] = devs
     return devs
 
@@ -1094,6 +1107,15 @@ def c02_battery(binary):
     def t_link_to_copy(r):
         os.symlink("../backup/copy.jpg", os.path.join(r, "archive", "aa_tocopy"))
 
+    def t_only_link(r):
+        # the first root holds nothing but a symlink to the replica in the other root
+        os.remove(os.path.join(r, "archive", "photo.jpg"))
+        os.symlink("../backup/copy.jpg", os.path.join(r, "archive", "aa_only"))
+
+    def t_only_abs_link(r):
+        os.remove(os.path.join(r, "archive", "photo.jpg"))
+        os.symlink(os.path.join(r, "backup", "copy.jpg"), os.path.join(r, "archive", "aa_only_abs"))
+
     def read(p):
         try:
             with open(p, "rb") as f:
@@ -1113,8 +1135,9 @@ def c02_battery(binary):
     for tname, extra in (("relative symlink sorted before its target", t_rel_first), ("relative symlink sorted after its target", t_rel_last),
                          ("absolute symlink sorted before its target", t_abs_first), ("relative symlink in another directory", t_rel_otherdir),
                          ("chain of two relative symlinks", t_chain), ("hard link next to the file", t_hard),
-                         ("symlink to the other replica", t_link_to_copy)):
-        for gargs in (["-S"], [], ["-S", "--hidden"]):
+                         ("symlink to the other replica", t_link_to_copy), ("a root that holds only a relative symlink to the replica in the other root", t_only_link),
+                         ("a root that holds only an absolute symlink to the replica in the other root", t_only_abs_link)):
+        for gargs in (["-S"], [], ["-S", "--hidden"], ["-S", "--isolate", "@R"], ["--isolate", "@R"]):
             for cmd in (["link"], ["link", "--soft"], ["remove"], ["move"], ["dedupe"], ["link", "--priority", "top"], ["remove", "--priority", "bottom"]):
                 d, root = fresh("c02b.")
                 env = mkenv(d)
@@ -1132,7 +1155,10 @@ def c02_battery(binary):
                         if not os.path.islink(p):
                             os.utime(p, (old, old))
                     before = scan(root)
-                    g = _run(binary, ["group"] + gargs + [root], env)
+                    if "@R" in gargs:
+                        g = _run(binary, ["group"] + [a for a in gargs if a != "@R"] + [os.path.join(root, "archive"), os.path.join(root, "backup")], env)
+                    else:
+                        g = _run(binary, ["group"] + gargs + [root], env)
                     if g.returncode != 0 or not g.stdout:
                         continue
                     tgt = os.path.join(d, "moved")
